@@ -526,7 +526,7 @@ Proof.
   intros ms order P. unfold one_result, one_contract, one_ret, members.
   rewrite (one_loop_spec ms ms 0) by (intros; reflexivity).
   destruct (find (succeeded ms) (seq 0 (List.length ms))) as [k|] eqn:F.
-  - simpl fst. simpl snd. rewrite Nat.sub_0_r.
+  - rewrite Nat.sub_0_r. cbn [fst snd].
     rewrite (wait_all_find _ _ (List.length ms)).
     + f_equal. unfold saw_spec. apply (list_ext _ (-1)%Z).
       * rewrite repeat_length, map_length, seq_length. reflexivity.
@@ -534,7 +534,7 @@ Proof.
     + intros x Hx. apply (perm_in _ _ x P). apply in_seq in Hx.
       apply find_some in F as [F _]. apply in_seq in F. lia.
     + apply (perm_length _ _ P).
-  - simpl fst. simpl snd.
+  - cbn [fst snd].
     rewrite (wait_all_find _ _ (List.length ms)).
     + f_equal.
       * destruct ms; reflexivity.
@@ -543,4 +543,367 @@ Proof.
         -- intros j Hj. rewrite repeat_length in Hj. rewrite nth_repeat', nth_map_seq by auto. reflexivity.
     + intros x Hx. apply (perm_in _ _ x P). apply in_seq in Hx. lia.
     + apply (perm_length _ _ P).
+Qed.
+
+(* ---- ExecuteUpTo (All, Most, Any), members that ignore their context ---- *)
+Definition all_plain (ms : list member) : Prop := forall j, aware_at ms j = false.
+
+Lemma flush_plain : forall s ms w, all_plain ms -> flush s ms w = w.
+Proof.
+  intros s ms w AP. unfold flush. generalize (seq 0 (List.length ms)). intros l.
+  induction l as [|h t IH]; simpl; auto.
+  unfold flush_one at 2. rewrite (AP h), andb_false_r. auto.
+Qed.
+
+Local Open Scope Z_scope.
+
+(* one received response of member i, as ExecuteUpTo's loop body updates its variables *)
+Definition upto_recv (ms : list member) (u : upto) (i : nat) : upto :=
+  mkU (set_nth i (msg_of i (out_at ms i)) (u_res u))
+      (if failed ms i then u_cnt u + 1 else u_cnt u)
+      (if failed ms i then (if u_first u =? 0 then zi i else u_first u) else u_first u).
+
+Fixpoint upto_fold (ms : list member) (u : upto) (t : list nat) : upto :=
+  match t with [] => u | i :: t' => upto_fold ms (upto_recv ms u i) t' end.
+
+(* the step at which the loop body calls cancelFunc for the first time *)
+Fixpoint flag (ms : list member) (k cnt : Z) (s : nat) (t : list nat) : option nat :=
+  match t with
+  | [] => None
+  | i :: t' => if failed ms i
+               then (if k <? cnt + 1 then Some s else flag ms k (cnt + 1) (S s) t')
+               else flag ms k cnt (S s) t'
+  end.
+
+Lemma failed_err : forall ms i, failed ms i = true -> err_of i (out_at ms i) = zi i.
+Proof. intros ms i. unfold failed. destruct (out_at ms i); simpl; congruence. Qed.
+
+Lemma not_failed_err : forall ms i, failed ms i = false -> err_of i (out_at ms i) = 0.
+Proof. intros ms i. unfold failed. destruct (out_at ms i); simpl; congruence. Qed.
+
+Lemma recv_upto : forall ms k u i,
+  recv (CUpTo k u) (own_resp ms i) =
+  (CUpTo k (upto_recv ms u i), failed ms i && (k <? u_cnt u + 1)).
+Proof.
+  intros ms k u i. unfold recv, own_resp, upto_recv. simpl r_err. simpl r_i. simpl r_msg.
+  destruct (failed ms i) eqn:F.
+  - rewrite (failed_err _ _ F), zi_nonzero. reflexivity.
+  - rewrite (not_failed_err _ _ F). simpl. destruct u; reflexivity.
+Qed.
+
+Definition next_cancel (ms : list member) (k : Z) (u : upto) (s i : nat) (c : option nat) : option nat :=
+  match c with
+  | Some _ => c
+  | None => if failed ms i && (k <? u_cnt u + 1) then Some s else None
+  end.
+
+Lemma release_upto_plain : forall ms w s h t k u,
+  all_plain ms -> live_is w (h :: t) -> w_cons w = CUpTo k u ->
+  release ms w s h =
+  settle s (mkW (CUpTo k (upto_recv ms u h)) (next_cancel ms k u s h (w_cancel w)) (w_ret w)
+                (set_nth h false (w_live w)) (w_saw w) (w_lost w)).
+Proof.
+  intros ms w s h t k u AP LI C.
+  assert (Lh : nth h (w_live w) false = true) by (apply LI; left; auto).
+  unfold release. rewrite Lh. unfold deliver.
+  replace (w_cons (member_returns h w)) with (w_cons w) by reflexivity.
+  rewrite C. simpl is_done. cbv iota. rewrite recv_upto. simpl is_done. cbv iota.
+  simpl w_cancel. unfold next_cancel.
+  destruct (w_cancel w) eqn:K; [reflexivity|].
+  destruct (failed ms h && (k <? u_cnt u + 1)); [|reflexivity].
+  rewrite flush_plain by auto. reflexivity.
+Qed.
+
+Local Open Scope nat_scope.
+
+Definition final_cancel (ms : list member) (k : Z) (u : upto) (s : nat) (t : list nat) (c : option nat) : nat :=
+  match c with
+  | Some c => c
+  | None => match flag ms k (u_cnt u) s t with Some c => c | None => s + List.length t - 1 end
+  end.
+
+Lemma upto_run_plain : forall ms k t w s u,
+  all_plain ms -> live_is w t -> NoDup t -> w_cons w = CUpTo k u -> t <> [] ->
+  let w' := releases ms w s t in
+  w_cons w' = CDone (closed (CUpTo k (upto_fold ms u t))) /\
+  w_ret w' = Some (s + List.length t - 1) /\
+  w_cancel w' = Some (final_cancel ms k u s t (w_cancel w)) /\
+  w_saw w' = w_saw w.
+Proof.
+  intros ms k t. induction t as [|h t IH]; intros w s u AP LI ND C NE; [congruence|].
+  cbv zeta. simpl releases.
+  rewrite (release_upto_plain ms w s h t k u AP LI C).
+  set (w1 := mkW (CUpTo k (upto_recv ms u h)) (next_cancel ms k u s h (w_cancel w)) (w_ret w)
+                 (set_nth h false (w_live w)) (w_saw w) (w_lost w)).
+  assert (LI1 : live_is w1 t) by (apply (live_is_step w h t ND LI)).
+  inversion ND as [|? ? Hh NDt]; subst.
+  destruct t as [|h2 t2].
+  - pose proof (live_is_nil_all_dead w1 LI1) as AD. simpl in AD.
+    simpl releases. unfold settle. simpl w_cons. simpl is_done. cbv iota.
+    simpl w_live. rewrite AD. simpl.
+    replace (s + 1 - 1) with s by lia. repeat split; auto.
+    unfold final_cancel, next_cancel. destruct (w_cancel w); auto.
+    simpl flag. destruct (failed ms h); simpl; [|f_equal; lia].
+    destruct (k <? u_cnt u + 1)%Z; auto. f_equal. lia.
+  - assert (ST : settle s w1 = w1).
+    { unfold settle. simpl w_cons. simpl is_done. cbv iota.
+      rewrite (live_is_cons_not_all_dead w1 h2 t2 LI1). reflexivity. }
+    rewrite ST.
+    assert (NE2 : h2 :: t2 <> []) by discriminate.
+    specialize (IH w1 (S s) (upto_recv ms u h) AP LI1 NDt eq_refl NE2). cbv zeta in IH.
+    destruct IH as [I1 [I2 [I3 I4]]]. rewrite I1, I2, I3, I4.
+    repeat split; auto.
+    + f_equal. simpl List.length. lia.
+    + f_equal. simpl w_cancel. unfold final_cancel, next_cancel.
+      destruct (w_cancel w); auto.
+      change (flag ms k (u_cnt u) s (h :: h2 :: t2)) with
+        (if failed ms h then (if (k <? u_cnt u + 1)%Z then Some s else flag ms k (u_cnt u + 1)%Z (S s) (h2 :: t2))
+         else flag ms k (u_cnt u) (S s) (h2 :: t2)).
+      unfold upto_recv. simpl u_cnt.
+      destruct (failed ms h); simpl andb.
+      * destruct (k <? u_cnt u + 1)%Z; auto.
+        simpl List.length. destruct (flag ms k (u_cnt u + 1)%Z (S s) (h2 :: t2)); auto. lia.
+      * simpl List.length. destruct (flag ms k (u_cnt u) (S s) (h2 :: t2)); auto. lia.
+Qed.
+
+Lemma nfails_cons : forall ms h t,
+  nfails ms (h :: t) = ((if failed ms h then 1 else 0) + nfails ms t)%Z.
+Proof.
+  intros ms h t. unfold nfails. simpl filter. destruct (failed ms h).
+  - unfold zlen. simpl List.length. lia.
+  - lia.
+Qed.
+
+Lemma nfails_nonneg : forall ms t, (0 <= nfails ms t)%Z.
+Proof. intros. unfold nfails, zlen. lia. Qed.
+
+Lemma upto_fold_cnt : forall ms t u, u_cnt (upto_fold ms u t) = (u_cnt u + nfails ms t)%Z.
+Proof.
+  intros ms t. induction t as [|h t IH]; intros u; simpl upto_fold.
+  - unfold nfails, zlen. simpl. lia.
+  - rewrite IH, nfails_cons. unfold upto_recv. simpl u_cnt. destruct (failed ms h); lia.
+Qed.
+
+Definition first_err (ms : list member) (t : list nat) : Z :=
+  match find (failed ms) t with Some i => err_of i (out_at ms i) | None => 0%Z end.
+
+Lemma upto_fold_first : forall ms t u,
+  u_first (upto_fold ms u t) = if (u_first u =? 0)%Z then first_err ms t else u_first u.
+Proof.
+  intros ms t. induction t as [|h t IH]; intros u; simpl upto_fold.
+  - unfold first_err. simpl. destruct (Z.eqb_spec (u_first u) 0); auto.
+  - rewrite IH. unfold upto_recv, first_err. simpl u_first. simpl find.
+    destruct (failed ms h) eqn:F; auto.
+    rewrite (failed_err _ _ F).
+    destruct (Z.eqb_spec (u_first u) 0) as [E|E].
+    + rewrite zi_nonzero. reflexivity.
+    + destruct (Z.eqb_spec (u_first u) 0); [congruence|reflexivity].
+Qed.
+
+Lemma upto_fold_res_length : forall ms t u,
+  List.length (u_res (upto_fold ms u t)) = List.length (u_res u).
+Proof.
+  intros ms t. induction t as [|h t IH]; intros u; simpl upto_fold; auto.
+  rewrite IH. unfold upto_recv. simpl. apply set_nth_length.
+Qed.
+
+Lemma upto_fold_res : forall ms t u j, j < List.length (u_res u) ->
+  nth j (u_res (upto_fold ms u t)) 0%Z = if inb j t then msg_of j (out_at ms j) else nth j (u_res u) 0%Z.
+Proof.
+  intros ms t. induction t as [|h t IH]; intros u j Hj; simpl upto_fold; auto.
+  rewrite IH by (unfold upto_recv; simpl; rewrite set_nth_length; auto).
+  change (inb j (h :: t)) with (Nat.eqb j h || inb j t)%bool.
+  destruct (inb j t); [rewrite orb_true_r; reflexivity|]. rewrite orb_false_r.
+  unfold upto_recv. simpl u_res. rewrite nth_set_nth.
+  destruct (Nat.eqb_spec j h) as [->|N]; simpl; auto.
+  destruct (Nat.ltb_spec h (List.length (u_res u))); auto. lia.
+Qed.
+
+(* the loop body's first cancelFunc call is the contract's decision step *)
+Lemma flag_is_find : forall ms k t c0 s,
+  (0 <= c0)%Z -> ((0 < c0)%Z -> (c0 <= k)%Z) ->
+  flag ms k c0 s t =
+  find (fun x => (Z.max k 0 <? c0 + nfails ms (firstn (S (x - s)) t))%Z) (seq s (List.length t)).
+Proof.
+  intros ms k t. induction t as [|h t IH]; intros c0 s H0 H1; [reflexivity|].
+  cbn [flag List.length seq find]. rewrite Nat.sub_diag. cbn [firstn].
+  rewrite nfails_cons. replace (nfails ms []) with 0%Z by reflexivity.
+  destruct (failed ms h) eqn:F.
+  - destruct (Z.ltb_spec k (c0 + 1)) as [L|L].
+    + destruct (Z.ltb_spec (Z.max k 0) (c0 + (1 + 0))); auto. lia.
+    + destruct (Z.ltb_spec (Z.max k 0) (c0 + (1 + 0))); [lia|].
+      rewrite (IH (c0 + 1)%Z (S s)) by lia.
+      apply find_ext_in. intros x Hx. apply in_seq in Hx.
+      replace (x - s) with (S (x - S s)) by lia.
+      rewrite (nfails_cons ms h), F. f_equal. lia.
+  - destruct (Z.ltb_spec (Z.max k 0) (c0 + (0 + 0))); [lia|].
+    rewrite (IH c0 (S s)) by lia.
+    apply find_ext_in. intros x Hx. apply in_seq in Hx.
+    replace (x - s) with (S (x - S s)) by lia.
+    rewrite (nfails_cons ms h), F. f_equal.
+Qed.
+
+Lemma flag_decided : forall ms k order, List.length order = List.length ms ->
+  flag ms k 0 1 order = decided_at k ms order.
+Proof.
+  intros ms k order L. rewrite flag_is_find by lia. unfold decided_at. rewrite L.
+  apply find_ext_in. intros x Hx. apply in_seq in Hx.
+  replace (S (x - 1)) with x by lia. reflexivity.
+Qed.
+
+Lemma all_returned_plain : forall ms order c, all_plain ms -> is_perm order (List.length ms) ->
+  all_returned_at ms order c = List.length ms.
+Proof.
+  intros ms order c AP P. unfold all_returned_at.
+  assert (E : forall s i, returned_by ms order c s i = (pos i order <? s)).
+  { intros s i. unfold returned_by, cancelled_member. destruct c; rewrite ?(AP i); simpl;
+      rewrite orb_false_r; reflexivity. }
+  assert (F : find (fun s => forallb (returned_by ms order c s) (members ms)) (seq 0 (S (List.length ms)))
+              = Some (List.length ms)).
+  { apply find_seq_some. split; [lia|]. split.
+    - apply forallb_forall. intros i Hi. rewrite E. apply Nat.ltb_lt.
+      rewrite <- (perm_length _ _ P). apply pos_lt. apply (perm_in _ _ i P).
+      unfold members in Hi. apply in_seq in Hi. lia.
+    - intros x Hx. destruct (List.length ms) as [|n] eqn:En; [lia|].
+      destruct (perm_last_pos order n P) as [i [Hi Hp]].
+      destruct (forallb (returned_by ms order c x) (members ms)) eqn:FB; auto.
+      rewrite forallb_forall in FB. specialize (FB i).
+      rewrite E in FB. rewrite Hp in FB.
+      assert (In i (members ms)) by (unfold members; rewrite En; apply in_seq; lia).
+      specialize (FB H). apply Nat.ltb_lt in FB. lia. }
+  rewrite F. reflexivity.
+Qed.
+
+Theorem upto_meets_contract_plain : forall k ms order,
+  all_plain ms -> is_perm order (List.length ms) ->
+  par_result true ms (run_par (CUpTo k (empty_upto (List.length ms))) ms order) = upto_contract k ms order.
+Proof.
+  intros k ms order AP P. destruct order as [|i t].
+  - rewrite (perm_nil_members ms P). unfold upto_contract, par_result, run_par. simpl.
+    destruct (k <? 0)%Z; destruct (Z.max k 0 <? nfails [] [])%Z; reflexivity.
+  - unfold run_par. rewrite (settle_init (CUpTo k (empty_upto (List.length ms))) _ i t P eq_refl).
+    set (n := List.length ms).
+    set (w0 := init_world (CUpTo k (empty_upto n)) n).
+    assert (NE : i :: t <> []) by discriminate.
+    destruct (upto_run_plain ms k (i :: t) w0 1 (empty_upto n) AP (init_live_is _ _ _ P)
+                (perm_nodup _ _ P) eq_refl NE) as [R1 [R2 [R3 R4]]].
+    unfold par_result, upto_contract. rewrite R1, R2, R3, R4. fold n.
+    rewrite (all_returned_plain ms (i :: t) _ AP P). fold n.
+    simpl w_cancel. unfold final_cancel. simpl u_cnt.
+    rewrite (flag_decided ms k (i :: t) (perm_length _ _ P)).
+    rewrite (perm_length _ _ P). fold n.
+    replace (1 + n - 1) with n by lia.
+    rewrite cancel_spec_length. fold n.
+    assert (SAW : w_saw w0 = saw_spec ms (i :: t) (decided_at k ms (i :: t))).
+    { simpl. apply (list_ext _ (-1)%Z).
+      - rewrite saw_spec_length, repeat_length. reflexivity.
+      - intros j Hj. rewrite repeat_length in Hj. unfold saw_spec, members.
+        rewrite nth_map_seq by auto. rewrite nth_repeat' by auto.
+        unfold cancelled_member. destruct (decided_at k ms (i :: t)); auto. rewrite (AP j). reflexivity. }
+    rewrite SAW.
+    assert (RES : u_res (upto_fold ms (empty_upto n) (i :: t)) =
+                  map (fun j => if cancelled_member ms (i :: t) (decided_at k ms (i :: t)) j then 0%Z
+                                else msg_of j (out_at ms j)) (members ms)).
+    { apply (list_ext _ 0%Z).
+      - rewrite upto_fold_res_length. simpl. unfold members. rewrite repeat_length, map_length, seq_length. reflexivity.
+      - intros j Hj. rewrite upto_fold_res_length in Hj. simpl in Hj. rewrite repeat_length in Hj.
+        rewrite upto_fold_res by (simpl; rewrite repeat_length; auto).
+        unfold members. rewrite nth_map_seq by auto.
+        assert (E : inb j (i :: t) = true) by (apply inb_true; apply (perm_in _ _ j P); auto).
+        rewrite E. unfold cancelled_member. destruct (decided_at k ms (i :: t)); auto. rewrite (AP j). reflexivity. }
+    assert (ERR : closed (CUpTo k (upto_fold ms (empty_upto n) (i :: t))) =
+                  RSlice (u_res (upto_fold ms (empty_upto n) (i :: t)))
+                         (if (Z.max k 0 <? nfails ms (i :: t))%Z then first_err ms (i :: t) else 0%Z)).
+    { unfold closed. rewrite upto_fold_cnt, upto_fold_first. simpl u_cnt. simpl u_first. simpl Z.eqb.
+      cbv iota. rewrite Z.add_0_l.
+      pose proof (nfails_nonneg ms (i :: t)) as NN.
+      destruct (Z.ltb_spec k (nfails ms (i :: t))) as [L|L];
+        destruct (Z.ltb_spec (Z.max k 0) (nfails ms (i :: t))) as [L2|L2]; auto; try lia.
+      (* negative budget and no failure at all: the error returned is firstError = nil *)
+      assert (Z0 : nfails ms (i :: t) = 0%Z) by lia.
+      unfold first_err. destruct (find (failed ms) (i :: t)) as [x|] eqn:FF; auto.
+      apply find_some in FF as [FI FS].
+      exfalso. unfold nfails, zlen in Z0.
+      assert (In x (filter (failed ms) (i :: t))) by (apply filter_In; auto).
+      destruct (filter (failed ms) (i :: t)); [destruct H|]. simpl in Z0. lia. }
+    rewrite ERR, RES. unfold first_err.
+    destruct (decided_at k ms (i :: t)); reflexivity.
+Qed.
+
+(* ---- Execute: dispatch and placement of the single result ---- *)
+Lemma place_placed : forall ms x,
+  (match x_ret x with RSingle _ _ _ => True | _ => False end) ->
+  with_ret (place (List.length ms)) x = placed ms x.
+Proof.
+  intros ms x H. unfold placed, with_ret. destruct (x_ret x) as [| msg idx err | |] eqn:E; try destruct H.
+  f_equal. unfold place.
+  assert (G : forall l, l = map (fun j => if (Z.of_nat j =? idx)%Z then msg else 0%Z) (members ms) ->
+              RSlice l err = RSlice (map (fun j => if (Z.of_nat j =? idx)%Z then msg else 0%Z) (members ms)) err)
+    by (intros; subst; auto).
+  destruct ((0 <=? idx)%Z && (idx <? Z.of_nat (List.length ms))%Z) eqn:B; apply G; clear G;
+    apply (list_ext _ 0%Z).
+  - rewrite set_nth_length, repeat_length. unfold members. rewrite map_length, seq_length. reflexivity.
+  - intros j Hj. rewrite set_nth_length, repeat_length in Hj.
+    unfold members. rewrite nth_map_seq by auto.
+    apply andb_true_iff in B as [B1 B2]. apply Z.leb_le in B1. apply Z.ltb_lt in B2.
+    rewrite nth_set_nth, repeat_length.
+    destruct (Z.eqb_spec (Z.of_nat j) idx) as [Q|Q].
+    + subst idx. rewrite Nat2Z.id, Nat.eqb_refl. simpl.
+      destruct (Nat.ltb_spec j (List.length ms)); auto. lia.
+    + destruct (Nat.eqb_spec j (Z.to_nat idx)) as [Q2|Q2]; [exfalso; apply Q; lia|].
+      simpl. apply nth_repeat_same.
+  - rewrite repeat_length. unfold members. rewrite map_length, seq_length. reflexivity.
+  - intros j Hj. rewrite repeat_length in Hj. unfold members. rewrite nth_map_seq by auto.
+    rewrite nth_repeat_same.
+    destruct (Z.eqb_spec (Z.of_nat j) idx) as [Q|Q]; auto.
+    subst idx. apply andb_false_iff in B as [B|B].
+    + apply Z.leb_gt in B. lia.
+    + apply Z.ltb_ge in B. lia.
+Qed.
+
+Definition upto_api (a : api) : bool :=
+  match a with
+  | AUpTo _ => true
+  | AExecute s => negb ((s =? 4)%Z || (s =? 5)%Z || (s =? 6)%Z)
+  | _ => false
+  end.
+
+Lemma one_contract_single : forall ms order,
+  match x_ret (one_contract ms order) with RSingle _ _ _ => True | _ => False end.
+Proof. intros. unfold one_contract. simpl. destruct (find (succeeded ms) (members ms)); exact I. Qed.
+Lemma fast_contract_single : forall ms order,
+  match x_ret (fast_contract ms order) with RSingle _ _ _ => True | _ => False end.
+Proof.
+  intros. unfold fast_contract. destruct (find (succeeded ms) order); simpl; auto.
+  destruct order; exact I.
+Qed.
+Lemma race_contract_single : forall ms order,
+  match x_ret (race_contract ms order) with RSingle _ _ _ => True | _ => False end.
+Proof. intros. unfold race_contract. destruct order; exact I. Qed.
+
+(* The model meets the contract: every member count, every outcome vector, every completion
+   order.  For the strategies built on ExecuteUpTo the members are assumed to ignore their
+   context (the property's "any mix of successes and failures completing in any order");
+   ExecuteOne / Fast / Race are covered with cancellation-aware members as well. *)
+Theorem exec_meets_contract : forall a ms order,
+  is_perm order (List.length ms) -> (upto_api a = true -> all_plain ms) ->
+  exec a ms order = contract a ms order.
+Proof.
+  intros a ms order P AP. unfold exec, exec_gen, contract.
+  destruct a as [s|k| | |].
+  - destruct (Z.eqb_spec s 2); [subst; apply upto_meets_contract_plain; auto|].
+    destruct (Z.eqb_spec s 3); [subst; apply upto_meets_contract_plain; auto|].
+    destruct (Z.eqb_spec s 4).
+    { rewrite (one_meets_contract ms order P). apply place_placed. apply one_contract_single. }
+    destruct (Z.eqb_spec s 5).
+    { rewrite (fast_meets_contract ms order P). apply place_placed. apply fast_contract_single. }
+    destruct (Z.eqb_spec s 6).
+    { rewrite (race_meets_contract ms order P). apply place_placed. apply race_contract_single. }
+    apply upto_meets_contract_plain; auto. apply AP. simpl.
+    destruct (Z.eqb_spec s 4); [congruence|]. destruct (Z.eqb_spec s 5); [congruence|].
+    destruct (Z.eqb_spec s 6); [congruence|]. reflexivity.
+  - apply upto_meets_contract_plain; auto.
+  - apply one_meets_contract; auto.
+  - apply fast_meets_contract; auto.
+  - apply race_meets_contract; auto.
 Qed.
